@@ -197,7 +197,10 @@ def case_term(case, res):
     obs = "(Build_bobs %s %s %s %s %s %s %s %s %s %s)" % (
         cs, ov("ab"), ov("dab"), ov("adb"), ov("l"), ov("ml"), ov("r"), ov("mr"),
         g_bool(res["eq_l"]), g_bool(res["eq_r"]))
-    return "(bchk %s %s %s %s %s %s)" % (cs, lat.coq_val(ta, case["a"]), lat.coq_val(ta, case["da"]),
+    # HV_KEYED_FIXED=1: compare with the model of the proposed repair (used only to validate
+    # fixes/C07_keyed_skip_bottom.diff against a patched checkout, HV_REPO=<that checkout>)
+    fn = "bchk_fixed" if os.environ.get("HV_KEYED_FIXED") == "1" else "bchk"
+    return "(%s %s %s %s %s %s %s)" % (fn, cs, lat.coq_val(ta, case["a"]), lat.coq_val(ta, case["da"]),
                                         lat.coq_val(tb, case["b"]), lat.coq_val(tb, case["db"]), obs)
 
 
